@@ -530,7 +530,10 @@ static void traceHOLA(Graph &G, const HolaOpts &holaOpts, Logger *logger = nullp
     // Remove part of the node padding now, to ensure open channels for connector routing.
     double nodePaddingLayer1 = 2*preRoutingGapIELScalar*nodePadding;
     double nodePaddingLayer2 = nodePadding - nodePaddingLayer1;
-    core->padAllNodes(-nodePaddingLayer1, -nodePaddingLayer1);
+    // mirrors /repo fix 4acc262: only the nodes of the given graph were padded
+    for (auto p : core->getNodeLookup()) {
+        if (G.hasNode(p.first)) p.second->addPadding(-nodePaddingLayer1, -nodePaddingLayer1);
+    }
     
     core->addBendlessSubnetworkToRoutingAdapter(ra);
     // Ask each Tree to add its network to the router.
